@@ -701,4 +701,144 @@ Proof.
   - apply h_rev_x.
 Qed.
 
+
+(* ====================================================================================== *)
+(* Part 4: per object number the NEWEST revision that lists it decides                     *)
+(* ====================================================================================== *)
+Lemma lookup_insert (m : objmap) id o k : lookup (insert m id o) k = if oid_eqb id k then Some o else lookup m k.
+Proof.
+  induction m as [|[i o'] m IH]; cbn [insert lookup]; [reflexivity|].
+  destruct (oid_eqb i id) eqn:E1.
+  - apply oid_eqb_eq in E1. subst i. cbn [lookup]. destruct (oid_eqb id k); reflexivity.
+  - destruct (oid_ltb id i); cbn [lookup]; [reflexivity|]. rewrite IH.
+    destruct (oid_eqb i k) eqn:E2; [|reflexivity]. apply oid_eqb_eq in E2. subst k.
+    destruct (oid_eqb id i) eqn:E3; [|reflexivity]. apply oid_eqb_eq in E3. subst id.
+    rewrite (proj2 (oid_eqb_eq i i) eq_refl) in E1. discriminate E1.
+Qed.
+
+Lemma lookup_absent (m : objmap) k : ~ In k (map fst m) -> lookup m k = None.
+Proof.
+  induction m as [|[i o] m IH]; intro H; [reflexivity|]. cbn [lookup]. destruct (oid_eqb i k) eqn:E.
+  - apply oid_eqb_eq in E. subst. exfalso. apply H. left. reflexivity.
+  - apply IH. intro Hin. apply H. right. exact Hin.
+Qed.
+
+Lemma lookup_fold_insert : forall (objs acc : objmap) k, NoDup (map fst objs) ->
+  lookup (fold_left (fun m io => insert m (fst io) (snd io)) objs acc) k =
+  match lookup objs k with Some o => Some o | None => lookup acc k end.
+Proof.
+  induction objs as [|[id o] r IH]; intros acc k Hn; [reflexivity|]. cbn [fold_left fst snd map] in *.
+  inversion Hn as [|? ? Hni Hn']; subst. rewrite (IH _ k Hn'). rewrite lookup_insert. cbn [lookup].
+  destruct (oid_eqb id k) eqn:E; [|reflexivity]. apply oid_eqb_eq in E. subst k. rewrite (lookup_absent r id Hni). reflexivity.
+Qed.
+
+Lemma lookup_filter_num (f : N -> bool) : forall (objs : objmap) n g,
+  lookup (filter (fun io : oid * obj => f (fst (fst io))) objs) (n, g) = if f n then lookup objs (n, g) else None.
+Proof.
+  induction objs as [|[[i gi] o] r IH]; intros n g; cbn [filter lookup fst]; [destruct (f n); reflexivity|].
+  destruct (oid_eqb (i, gi) (n, g)) eqn:E.
+  - apply oid_eqb_eq in E. inversion E; subst. destruct (f n) eqn:Ei.
+    + cbn [lookup]. rewrite (proj2 (oid_eqb_eq (n, g) (n, g)) eq_refl). reflexivity.
+    + rewrite IH, Ei. reflexivity.
+  - destruct (f i); [cbn [lookup]; rewrite E|]; apply IH.
+Qed.
+
+Lemma filter_nodup_keys (p : oid * obj -> bool) : forall objs : objmap, NoDup (map fst objs) -> NoDup (map fst (filter p objs)).
+Proof.
+  induction objs as [|io r IH]; intro H; [constructor|]. cbn [map] in H. inversion H as [|? ? Hni Hn']; subst. cbn [filter].
+  destruct (p io); [|apply IH; exact Hn']. cbn [map]. constructor; [|apply IH; exact Hn'].
+  intro Hin. apply Hni. apply in_map_iff in Hin as [x [Ex Hx]]. apply filter_In in Hx as [Hx _].
+  apply in_map_iff. exists x. split; assumption.
+Qed.
+
+(* the objects of the newest revision whose cross-reference section lists the number *)
+Fixpoint newest_listing (l : list (list N * objmap)) (n : N) : option objmap :=
+  match l with
+  | [] => None
+  | (ids, objs) :: l' => if existsb (N.eqb n) ids then Some objs else newest_listing l' n
+  end.
+
+(* identifiers pairwise distinct; every object's number is listed by the section of its revision *)
+Definition item_ok (it : list N * objmap) : Prop :=
+  NoDup (map fst (snd it)) /\ Forall (fun io : oid * obj => In (fst (fst io)) (fst it)) (snd it).
+
+Lemma existsb_eqb_in n l : existsb (N.eqb n) l = true <-> In n l.
+Proof.
+  rewrite existsb_exists. split; [intros [x [Hx E]]; apply N.eqb_eq in E; subst; exact Hx | intro H; exists n; split; [exact H | apply N.eqb_refl]].
+Qed.
+
+Theorem omerge_list_lookup : forall l seen acc n g, Forall item_ok l ->
+  lookup (omerge_list l seen acc) (n, g) =
+  if existsb (N.eqb n) seen then lookup acc (n, g)
+  else match newest_listing l n with
+       | Some objs => match lookup objs (n, g) with Some o => Some o | None => lookup acc (n, g) end
+       | None => lookup acc (n, g)
+       end.
+Proof.
+  induction l as [|[ids objs] l IH]; intros seen acc n g Hok.
+  - cbn [omerge_list newest_listing]. destruct (existsb (N.eqb n) seen); reflexivity.
+  - inversion Hok as [|? ? [Hnd Hin] Hok']; subst. cbn [fst snd] in Hnd, Hin.
+    cbn [omerge_list newest_listing]. rewrite (IH _ _ n g Hok'). rewrite existsb_app.
+    set (f := fun i : N => negb (existsb (N.eqb i) seen)).
+    assert (Eacc : lookup (fold_left (fun m io => insert m (fst io) (snd io))
+                              (filter (fun io : oid * obj => negb (existsb (N.eqb (fst (fst io))) seen)) objs) acc) (n, g) =
+                   if existsb (N.eqb n) seen then lookup acc (n, g)
+                   else match lookup objs (n, g) with Some o => Some o | None => lookup acc (n, g) end).
+    { rewrite lookup_fold_insert by (apply filter_nodup_keys; exact Hnd).
+      change (filter (fun io : oid * obj => negb (existsb (N.eqb (fst (fst io))) seen)) objs)
+        with (filter (fun io : oid * obj => f (fst (fst io))) objs).
+      rewrite (lookup_filter_num f objs n g). unfold f. destruct (existsb (N.eqb n) seen); reflexivity. }
+    rewrite Eacc. destruct (existsb (N.eqb n) seen) eqn:Es; [rewrite orb_true_r; reflexivity|]. rewrite orb_false_r.
+    destruct (existsb (N.eqb n) ids) eqn:Ei; [reflexivity|].
+    assert (Hnone : lookup objs (n, g) = None).
+    { apply lookup_absent. intro Hk. apply in_map_iff in Hk as [io [Eio Hio]]. rewrite Forall_forall in Hin.
+      specialize (Hin io Hio). rewrite Eio in Hin. cbn [fst] in Hin. apply existsb_eqb_in in Hin. rewrite Hin in Ei. discriminate Ei. }
+    rewrite Hnone. reflexivity.
+Qed.
+
+Lemma increasing_nodup : forall (objs : objmap) lo, increasing lo (obj_numbers objs) -> NoDup (map fst objs).
+Proof.
+  assert (B : forall (objs : objmap) lo, increasing lo (obj_numbers objs) -> Forall (fun io : oid * obj => lo < fst (fst io)) objs).
+  { induction objs as [|io r IH]; intros lo H; [constructor|]. cbn [obj_numbers map increasing] in H. destruct H as [H1 H2].
+    constructor; [exact H1|]. eapply Forall_impl; [|apply (IH _ H2)]. intros a Ha. cbn beta in *. lia. }
+  induction objs as [|io r IH]; intros lo H; [constructor|]. cbn [obj_numbers map increasing] in H. destruct H as [H1 H2].
+  cbn [map]. constructor; [|apply (IH _ H2)]. intro Hin. apply in_map_iff in Hin as [x [Ex Hx]].
+  pose proof (B r _ H2) as Hb. rewrite Forall_forall in Hb. specialize (Hb x Hx). cbn beta in Hb. rewrite Ex in Hb. apply N.lt_irrefl in Hb. exact Hb.
+Qed.
+
+Lemma entries_of_keys : forall objs pos, unskipped objs -> map fst (entries_of pos objs) = obj_numbers objs.
+Proof.
+  induction objs as [|[[id g] o] r IH]; intros pos H; [reflexivity|]. inversion H as [|? ? Hs Hr]; subst. cbn [snd] in Hs.
+  cbn [entries_of]. rewrite Hs. cbn [map fst obj_numbers]. f_equal. apply IH. exact Hr.
+Qed.
+
+Lemma h_items_ok : forall h, h_dom h -> Forall item_ok (h_list h_merge_item h).
+Proof.
+  assert (One : forall h, h_dom h -> item_ok (h_merge_item h)).
+  { intros h Hd. pose proof (h_dom_rev h Hd) as Hr. unfold item_ok, h_merge_item. cbn [fst snd]. split.
+    - unfold norm_objects. rewrite map_map. cbn [fst]. apply (increasing_nodup _ 0). exact (rd_numbers _ Hr).
+    - unfold norm_objects. rewrite Forall_map. cbn [fst]. apply Forall_forall. intros io Hio.
+      assert (Hk : In (fst (fst io)) (map fst (rev_xmap (h_doc h) (h_pos h)))).
+      { unfold rev_xmap. rewrite (entries_of_keys _ _ (rd_unskipped _ Hr)). unfold obj_numbers. apply in_map_iff. exists io. split; [reflexivity | exact Hio]. }
+      unfold h_rev. destruct (h_x h); cbn [rev_of SR.r_entries tab_rev str_rev]; unfold tab_entries, str_entries, str_map; cbn [map fst].
+      + right. rewrite map_map. cbn [xuse_of fst]. exact Hk.
+      + rewrite map_map. cbn [xuse_of fst]. rewrite map_app. apply in_or_app. left. exact Hk. }
+  induction h as [x d|h IH x nd]; intro Hd; cbn [h_list].
+  - constructor; [apply One; exact Hd | constructor].
+  - constructor; [apply One; exact Hd|]. destruct Hd as [Hd' _]. apply IH. exact Hd'.
+Qed.
+
+(* what the strict reader recovers for an identifier: the object the newest listing revision has under it *)
+Theorem sdoc_hist_lookup h n g :
+  h_dom h ->
+  lookup (SR.s_objects (sdoc_hist h)) (n, g) =
+  match newest_listing (h_list h_merge_item h) n with
+  | Some objs => lookup objs (n, g)
+  | None => None
+  end.
+Proof.
+  intro Hd. cbn [sdoc_hist SR.s_objects]. rewrite (omerge_list_lookup _ [] [] n g (h_items_ok h Hd)). cbn [existsb lookup].
+  destruct (newest_listing (h_list h_merge_item h) n) as [objs|]; [|reflexivity]. destruct (lookup objs (n, g)); reflexivity.
+Qed.
+
 Print Assumptions strict_load_hist.
